@@ -102,6 +102,10 @@ pub struct Sk<'a> {
     drop_self: Option<String>,
     pub unknown_calls: Vec<String>,
     exit_marker: Option<String>,
+    /// functions defined in the same source file: name -> (owner type or "", returns Result)
+    local_fns: &'a BTreeMap<String, Vec<(String, bool)>>,
+    /// helper functions of the same file that are called but not registered: skeletonised on the fly (no contract)
+    pub auto_requests: Vec<(String, String)>,
 }
 
 fn last_seg(p: &syn::Path) -> String {
@@ -255,6 +259,20 @@ impl<'a> Sk<'a> {
             }
         }
         None
+    }
+
+    /// a call to a function of the same file that is not registered: skeletonise it on the fly
+    fn try_auto(&mut self, name: &str, owner_hint: Option<&str>) -> Option<AV> {
+        let cands = self.local_fns.get(name)?.clone();
+        let pick = match owner_hint {
+            Some(o) => cands.iter().find(|(t, _)| t == o).cloned().or_else(|| if cands.len() == 1 { Some(cands[0].clone()) } else { None }),
+            None => if cands.len() == 1 { Some(cands[0].clone()) } else { cands.iter().find(|(t, _)| t.is_empty()).cloned() },
+        }?;
+        let skname = if pick.0.is_empty() { format!("sk_auto_{}", name) } else { format!("sk_auto_{}_{}", pick.0, name) };
+        if !self.auto_requests.iter().any(|(t, n)| *t == pick.0 && n == name) {
+            self.auto_requests.push((pick.0.clone(), name.to_string()));
+        }
+        Some(self.call_skel(&(skname, pick.1)))
     }
 
     fn call_skel(&mut self, sk: &(String, bool)) -> AV {
@@ -756,6 +774,12 @@ impl<'a> Sk<'a> {
             }
             return av;
         }
+        if (recv_text == "self" || recv_text == "&self") && !self.cfg.pure.iter().any(|p| *p == name) {
+            let st = self.self_ty.clone();
+            if let Some(av) = self.try_auto(&name, Some(&st)) {
+                return av;
+            }
+        }
         if !self.cfg.pure.iter().any(|p| *p == name) {
             self.unknown_calls.push(format!("{}:{}: .{}()", self.src.rel, at, name));
         }
@@ -850,6 +874,14 @@ impl<'a> Sk<'a> {
         }
         if pstr.ends_with("OpenOptions::new") {
             return AV::None;
+        }
+        if !self.cfg.pure.iter().any(|p| *p == lastn || *p == pstr) {
+            let segs: Vec<&str> = pstr.split("::").collect();
+            let st = self.self_ty.clone();
+            let auto = if segs.len() == 1 { self.try_auto(&lastn, None) } else if segs.len() == 2 && (segs[0] == "Self" || segs[0] == st) { self.try_auto(&lastn, Some(&st)) } else { None };
+            if let Some(av) = auto {
+                return av;
+            }
         }
         if pstr.starts_with("std::fs::") || pstr.starts_with("fs::") || pstr.starts_with("File::") || pstr.starts_with("std::fs::File::") {
             // a filesystem call outside the alphabet: unexplained effect (frame obligation, C06)
@@ -971,7 +1003,7 @@ impl<'a> Sk<'a> {
             src: self.src, cfg: self.cfg, registry: self.registry, self_ty: self.self_ty.clone(), out: vec![], ind: 1,
             scopes: vec![], temps: vec![], loop_scope_depth: vec![], n: 0, ret_result: true, vars: BTreeMap::new(),
             closures: BTreeMap::new(), pending_closures: vec![], errors: vec![], events: 0, loop_invs: BTreeMap::new(),
-            loop_counter: 0, fname: name.to_string(), drop_self: None, unknown_calls: vec![], exit_marker: None,
+            loop_counter: 0, fname: name.to_string(), drop_self: None, unknown_calls: vec![], exit_marker: None, local_fns: self.local_fns, auto_requests: vec![],
         };
         sub.scopes.push(vec![]);
         let av = sub.expr(&c.body);
@@ -979,12 +1011,14 @@ impl<'a> Sk<'a> {
         sub.emit(&v);
         self.errors.extend(sub.errors.clone());
         self.unknown_calls.extend(sub.unknown_calls.clone());
+        self.auto_requests.extend(sub.auto_requests.clone());
         self.events += sub.events;
         sub.out.join("\n")
     }
 }
 
 pub struct SkelOut {
+    pub auto_requests: Vec<(String, String)>,
     pub text: String,
     pub closures: Vec<(String, String)>,
     pub events: usize,
@@ -995,6 +1029,7 @@ pub struct SkelOut {
 pub fn skeleton_of(
     src: &Src, cfg: &Cfg, registry: &BTreeMap<String, (String, bool)>, self_ty: &str, fname: &str, sig: &syn::Signature,
     block: &syn::Block, loop_invs: BTreeMap<usize, String>, drop_self: Option<String>, exit_marker: Option<String>,
+    local_fns: &BTreeMap<String, Vec<(String, bool)>>,
 ) -> Result<SkelOut, String> {
     let ret_result = match &sig.output {
         syn::ReturnType::Type(_, t) => norm(src.slice(src.range(&**t))).starts_with("Result"),
@@ -1003,7 +1038,7 @@ pub fn skeleton_of(
     let mut sk = Sk {
         src, cfg, registry, self_ty: self_ty.to_string(), out: vec![], ind: 1, scopes: vec![], temps: vec![], loop_scope_depth: vec![], n: 0,
         ret_result, vars: BTreeMap::new(), closures: BTreeMap::new(), pending_closures: vec![], errors: vec![], events: 0, loop_invs,
-        loop_counter: 0, fname: fname.to_string(), drop_self: drop_self.clone(), unknown_calls: vec![], exit_marker: exit_marker.clone(),
+        loop_counter: 0, fname: fname.to_string(), drop_self: drop_self.clone(), unknown_calls: vec![], exit_marker: exit_marker.clone(), local_fns, auto_requests: vec![],
     };
     // dyn Fn parameters that are callbacks are resolved by name through cfg.callbacks
     let av = sk.block(block);
@@ -1028,7 +1063,7 @@ pub fn skeleton_of(
     if !sk.errors.is_empty() {
         return Err(sk.errors.join("; "));
     }
-    Ok(SkelOut { text: sk.out.join("\n"), closures: sk.pending_closures, events: sk.events, unknown_calls: sk.unknown_calls })
+    Ok(SkelOut { auto_requests: sk.auto_requests, text: sk.out.join("\n"), closures: sk.pending_closures, events: sk.events, unknown_calls: sk.unknown_calls })
 }
 
 pub fn returns_result(src: &Src, sig: &syn::Signature) -> bool {
